@@ -18,3 +18,19 @@ spec("C10", "sync idempotent / truth untouched / truthful report",
      floors={"FILE-1": 1, "FILE-2": 4, "FILE-2b": 1},
      technique="call-graph reachability of write sinks, syntactic guard/control-dependence analysis, exhaustive CFG path enumeration",
      not_decided="byte identity of a second run (needs emit∘parse to be a fixed point: value-level); growth by repeated append when the lookup cannot find what was appended")
+
+from sa.rules import call as C
+from sa.rules import cli as CLI
+
+spec("C19", "gen writes one well-formed definition per entry",
+     [C.rule_call_getattr, F.rule_file6, CLI.rule_cli1],
+     "tmp", floors={})
+spec("C09", "sync makes targets agree",
+     [C.rule_call_direct, C.rule_call_dispatch],
+     "tmp", floors={})
+
+from sa.rules import det as D
+
+spec("C12", "output is a deterministic function of the input",
+     [D.rule_det1, D.rule_det1b, D.rule_det2, D.rule_det3],
+     "tmp", floors={})
